@@ -166,4 +166,51 @@ def obligations(tier, seed):
                          "and reports a spurious unwinding failure)",
                   outside="job array compaction in vbi3_raw_decoder_remove_services (path dependent memmove length: 174 s, 6.4 GB, killed)",
                   assumes=["st_pat_inv"], stubs=stub, reach=["end", "called"], timeout=120, mem_gb=2, vin_size=64, units=UP, solver="cadical"))
+    from vlib.props._c04jobs import jobs_obs
+    obs += jobs_obs()
+    # ---- search window maximal (the counterpart of C05 params_lemma) -------------------------------------------
+    # rows of the real service table and the admission limit of _vbi_sampling_par_permit_service (as C05.ROWS)
+    WROWS = {0: 9304687, 2: 10406250, 3: 8601562, 4: 8464180, 5: 7500000, 7: 5000000, 8: 1500000,
+             11: 8590908, 12: 8590908, 13: 8590908, 14: 1510464, 16: 1510464}
+    gw = [dict(ROW=r, FMT=f, RATE_MIN=WROWS[r], RATE_MAX=1 << 27) for r in sorted(WROWS) for f in ("VBI_PIXFMT_YUV420", "VBI_PIXFMT_RGB16_LE")]
+    obs.append(Ob("search_window_maximal", harness="h_c04_slicer.c", func="h_window_maximal", unwind=2,
+                  desc="vbi3_bit_slicer_set_params called exactly as vbi3_raw_decoder_add_services does for one row of the REAL _vbi_service_table with symbolic "
+                       "sampling_rate, samples_per_line and sample_offset: whenever the parameters are accepted the CRI search window is not empty and MAXIMAL - "
+                       "a signal recognised at the first position that is not searched would either need a sample beyond the line for its last bit "
+                       "(interpolation neighbour; 16 sample window of the low pass slicer) or its last bit cell ends behind the line; so every horizontal offset "
+                       "that keeps the signal inside the line (and samplable inside the line, C05) keeps its run-in inside the search window",
+                  encodes=["vbi3_bit_slicer_set_params", "_vbi_service_table"],
+                  bounds="sampling_rate in [admission limit of the service, 2^27] Hz, samples_per_line <= 4096, sample_offset < 65536; service row and pixel "
+                         "format (generic / low pass slicer) on the grid; sampling scheme t_k = p + (phase_shift + k step)/256 as tied to the real loops by C05 slicer_exact",
+                  outside="that the nominal signal is recognised AT the position the scheme assumes (wave_* obligations at the grid offsets); cri_end other than ~0",
+                  grid=gw, quick_grid=[g for g in gw if g["ROW"] in (2, 5, 8) and g["FMT"] == "VBI_PIXFMT_YUV420"],
+                  reach=["end", "accepted", "rejected"], timeout=600, mem_gb=4, vin_size=64, units=["src/raw_decoder.c", "src/sampling_par.c", "src/misc.c"],
+                  solver="cadical", stubs=["_vbi_log_printf not reached (log mask 0)"]))
+
+    # ---- legacy bit slicer ------------------------------------------------------------------------------------------
+    # A relational obligation "legacy_format_invariance" (harness/h_c04_legacy.c h_legacy_format_invariance: one arbitrary luma line sliced as Y8 and packed
+    # into YUYV/RGB24/RGBA32 with arbitrary chroma - same verdict, same payload) was built and DROPPED: no verdict in 300 s (cadical) at 40 and at 24
+    # samples per line - the equivalence of the two threshold-adaptation multiplier chains is not found by the SAT solver.  What remains decidable is the
+    # unit obligation on sample() below; the CRI search loop of the legacy template with packed formats is covered for memory safety only (C05).
+    obs.append(Ob("legacy_sample_interpolation", harness="h_c04_legacy.c", func="h_legacy_sample", unwind=8,
+                  desc="sample() of the legacy slicer (FRC/payload sampling, 8 bit formats) on arbitrary pixels and an arbitrary 24.8 position: the value is the linear "
+                       "interpolation between the luma/green byte of pixel offs>>8 and of the NEXT PIXEL, independent of the other bytes of the pixels",
+                  encodes=["sample"], bounds="bytes per pixel 1..4 on the grid, 6 pixels, every position", outside="15/16 bit formats",
+                  grid=[dict(BPS=b) for b in (1, 2, 3, 4)], reach=["end"], timeout=120, mem_gb=2, vin_size=64, solver="cadical",
+                  units=["src/raw_decoder.c", "src/bit_slicer.c", "src/sampling_par.c", "src/misc.c"],
+                  ignore=[r"decoder\.c:vbi_bit_slicer_init:shift distance too large"]))
+
+    # ---- decode_pattern keeps the jobs of a row (learned per-line pattern = state across frames) --------------------
+    obs.append(Ob("decode_keeps_row_jobs", harness="h_c05_out.c", func="h_decode_out", unwind=60, unwindset={"decode_pattern.1": 9},
+                  desc="REAL vbi3_raw_decoder_decode on a symbolic pattern table (representation invariant), job table, slicer verdicts (stub) - the C05 decode_out "
+                       "harness: the 'try the found service first next time' bookkeeping only PERMUTES a row - no job is dropped from a scan line, duplicated or moved "
+                       "to another line -, so over any history of frames every requested service stays searched on the lines it was admitted to "
+                       "(tags no_job_dropped_from_row, row_job_count_unchanged, no_job_migrates_between_rows, pattern_invariant_preserved)",
+                  encodes=["vbi3_raw_decoder_decode", "decode_pattern"],
+                  bounds="1..2 scan lines, 8 ways, any pattern satisfying the invariant; histories of any length by induction over the invariant",
+                  stubs=["models/c05_slicer_stub.h: bit slicer replaced by its contract"],
+                  assumes=["pattern table invariant st_pat_inv", "sampling parameters accepted by _vbi_sampling_par_valid_log"],
+                  grid=[dict(LINES=2, ILACE=0, C0=1), dict(LINES=1, ILACE=0, C0=0), dict(LINES=1, ILACE=0, C0=1)], quick_grid=[dict(LINES=1, ILACE=0, C0=0)],
+                  reach=["end", "output_full", "two_records"], timeout=900, mem_gb=3, vin_size=512,
+                  noflags=["--pointer-overflow-check"], units=["src/sampling_par.c", "src/misc.c"]))
     return obs
